@@ -340,6 +340,19 @@ Fixpoint to_rixns (cfg : config) (http : bool) (l : list intention) : list rixn 
 Definition to_intermediate (cfg : config) (http : bool) (ixns : list intention) : list rixn :=
   to_rixns cfg http (remove_same_source (sort_ixns ixns)).
 
+(* NOT in /repo: the repair proposed in fixes/C14-drop-shadowed-source-intentions.patch
+   (removeShadowedSourceIntentions): an intention whose source is strictly contained in the
+   source of a kept higher-precedence intention can never be the first to match and is dropped. *)
+Fixpoint drop_shadowed (kept : list rsvc) (l : list rixn) : list rixn :=
+  match l with
+  | [] => []
+  | r :: rest =>
+      if existsb (fun p => ixn_source_matches (r_src r) p) kept then drop_shadowed kept rest
+      else r :: drop_shadowed (kept ++ [r_src r]) rest
+  end.
+Definition to_intermediate_gen (repaired : bool) (cfg : config) (http : bool) (ixns : list intention) : list rixn :=
+  if repaired then drop_shadowed [] (to_intermediate cfg http ixns) else to_intermediate cfg http ixns.
+
 (* removeSourcePrecedence, the marking walk: i from the end to the front; [i] is added as
    AND NOT to every later non-skipped [j] it is a strict subset of; then [i] is marked for
    deletion when its action is the default action. *)
@@ -448,9 +461,9 @@ Definition expect_xfcc (cfg : config) (ixns : list intention) (http : bool) : bo
   http && negb (List.length (c_bundles cfg) =? 0)%nat
        && existsb (fun i => negb (i_src_peer i =? "")) ixns.
 
-Definition translate (cfg : config) (ixns : list intention) (dflt_allow http : bool) : rbac :=
+Definition translate_gen (repaired : bool) (cfg : config) (ixns : list intention) (dflt_allow http : bool) : rbac :=
   let xf := expect_xfcc cfg ixns http in
-  let rixns := to_intermediate cfg http ixns in
+  let rixns := to_intermediate_gen repaired cfg http ixns in
   let dflt := action_of_bool dflt_allow in
   let rixns := remove_intention_precedence dflt rixns in
   let '(l7, l4) := build_policies cfg xf 0 rixns in
@@ -459,6 +472,11 @@ Definition translate (cfg : config) (ixns : list intention) (dflt_allow http : b
               | [] => []
               | _ => [(KL4, Policy (optimize_principals l4) [PermAny])]
               end)%list.
+
+(* makeRBACRules as it is in /repo *)
+Definition translate := translate_gen false.
+(* makeRBACRules with the proposed repair applied *)
+Definition translate_repaired := translate_gen true.
 
 (* ------------------------------------------------------------------ rendering (what Go emits) *)
 
@@ -511,11 +529,15 @@ Section Eval.
     | SMRegex r => re r v
     end.
 
+  (* HeaderMatcher without treat_missing_header_as_empty (consul never sets it): when the header
+     is absent the value matchers are "ignored, will not match" even with invert_match; only
+     present_match is inverted.  (route_components.proto, HeaderMatcher.invert_match /
+     treat_missing_header_as_empty; HeaderUtility::matchHeaders.) *)
   Definition eval_header (name : string) (m : option strmatch) (inv : bool) (q : request) : bool :=
-    xorb inv match header_lookup name q with
-             | None => false
-             | Some v => match m with None => true | Some sm => eval_sm sm v end
-             end.
+    match header_lookup name q with
+    | None => match m with None => inv | Some _ => false end
+    | Some v => xorb inv match m with None => true | Some sm => eval_sm sm v end
+    end.
 
   Fixpoint eval_perm (q : request) (p : permission) : bool :=
     match p with
